@@ -384,6 +384,10 @@ func (t *Transaction) Insert(op *ovsdb.Operation) (ovsdb.OperationResult, *updat
 		return ovsdb.ResultFromError(err), nil
 	}
 
+	if err := updates.ValidateOperation(t.Model, op.Table, op); err != nil {
+		return ovsdb.ResultFromError(err), nil
+	}
+
 	update := updates.ModelUpdates{}
 	err := update.AddOperation(t.Model, op.Table, op.UUID, nil, op)
 	if err != nil {
@@ -434,6 +438,10 @@ func (t *Transaction) Select(table string, where []ovsdb.Condition, columns []st
 }
 
 func (t *Transaction) Update(op *ovsdb.Operation) (ovsdb.OperationResult, *updates.ModelUpdates) {
+	if err := updates.ValidateOperation(t.Model, op.Table, op); err != nil {
+		return ovsdb.ResultFromError(err), nil
+	}
+
 	rows, err := t.rowsFromTransactionCacheAndDatabase(op.Table, op.Where)
 	if err != nil {
 		return ovsdb.ResultFromError(err), nil
@@ -452,6 +460,10 @@ func (t *Transaction) Update(op *ovsdb.Operation) (ovsdb.OperationResult, *updat
 }
 
 func (t *Transaction) Mutate(op *ovsdb.Operation) (ovsdb.OperationResult, *updates.ModelUpdates) {
+	if err := updates.ValidateOperation(t.Model, op.Table, op); err != nil {
+		return ovsdb.ResultFromError(err), nil
+	}
+
 	rows, err := t.rowsFromTransactionCacheAndDatabase(op.Table, op.Where)
 	if err != nil {
 		return ovsdb.ResultFromError(err), nil
